@@ -658,7 +658,26 @@ def probe_sighash_taproot(clsname):
     txt = "t = %s; t.sighash_taproot(0, spks, [1000, 2000]); t.sighash_taproot(0, spks, [3000, 4000]) vs the same call on a fresh object" % clsname
     if second != fresh:
         return "confirmedUnsafe", txt + ": differ"
-    return "confirmedSafe", txt + ": agree"
+    # the caller's own lists edited in place and handed in again: a memo key that is the argument object itself
+    # (not its contents) compares equal to itself
+    try:
+        r = mk()
+        vals = [1000, 2000]
+        spks = [Script(b"\x51\x20" + b"\x01" * 32), Script(b"\x51\x20" + b"\x02" * 32)]
+        r.sighash_taproot(0, spks, vals)
+        vals[1] = 45000
+        spks[1] = Script(b"\x51\x20" + b"\x03" * 32)
+        second = r.sighash_taproot(0, spks, vals)
+        spks[0].data = b"\x51\x20" + b"\x04" * 32
+        third = r.sighash_taproot(0, spks, vals)
+        fresh2 = mk().sighash_taproot(0, [Script(b"\x51\x20" + b"\x01" * 32), Script(b"\x51\x20" + b"\x03" * 32)], [1000, 45000])
+        fresh3 = mk().sighash_taproot(0, [Script(b"\x51\x20" + b"\x04" * 32), Script(b"\x51\x20" + b"\x03" * 32)], [1000, 45000])
+    except Exception as e:
+        return "notProbed", "raised %s: %s" % (type(e).__name__, e)
+    if second != fresh2 or third != fresh3:
+        return "confirmedUnsafe", ("t = %s; t.sighash_taproot(0, spks, vals); vals[1] = 45000; spks[1] = other; "
+                                   "t.sighash_taproot(0, spks, vals) (same list objects) vs a fresh object: differ" % clsname)
+    return "confirmedSafe", txt + ": agree (also with the argument lists edited in place)"
 
 
 def probe_arg_unchanged(fn, args, label):
